@@ -205,6 +205,24 @@ def run_case(case, ctx):
                 acc('iline[n]', lambda i=i: f.iline[int(il[i])], V[i])
             for x in reads.residue_points(nX, sp.bs[1], rng, 1)[:6]:
                 acc('xline[n]', lambda x=x: f.xline[int(xl[x])], V[:, x])
+            # slices over line NUMBERS (the accessor's documented semantics: the numbers range(start, stop, step) that exist in the file,
+            # defaults = whole axis in the direction of the step); lowest line 0 and negative numbers included - they are numbers, not positions
+            for name_, ax_, take in (('iline', il, lambda k: V[k]), ('xline', xl, lambda k: V[:, k])):
+                if len(ax_) < 2:
+                    continue
+                inc_, lo_, hi_ = abs(int(ax_[1] - ax_[0])), int(min(ax_)), int(max(ax_))
+                pos_ = {int(v_): k_ for k_, v_ in enumerate(ax_)}
+                mid_ = int(ax_[len(ax_) // 2])
+                for (a_, b_, c_) in [(None, None, None), (None, None, -1), (None, None, -inc_), (mid_, None, -inc_), (None, mid_, inc_), (lo_, hi_ + 1, 2 * inc_),
+                                     (hi_, lo_ - 1, -inc_), (hi_ + 5 * inc_, lo_ - 3 * inc_, -inc_)]:
+                    stp = 1 if c_ is None else c_
+                    st_ = a_ if a_ is not None else (lo_ if stp > 0 else hi_)
+                    sp_ = b_ if b_ is not None else (hi_ + 1 if stp > 0 else lo_ - 1)
+                    want_ = [take(pos_[v_]) for v_ in range(st_, sp_, stp) if v_ in pos_]
+                    if len(want_) > 40:
+                        continue
+                    acc('%s[a:b:c]' % name_, lambda a_=a_, b_=b_, c_=c_: np.array(getattr(f, name_)[a_:b_:c_]),
+                        np.array(want_) if want_ else np.zeros((0,)))
             for z in reads.residue_points(nZ, sp.bs[2], rng, 1)[:6]:
                 acc('depth_slice[i]', lambda z=z: f.depth_slice[z], V[:, :, z])
             acc('depth_slice[-1]', lambda: f.depth_slice[-1], V[:, :, -1])
